@@ -182,6 +182,9 @@ impl World {
                     .map(|_| Value::Null)
                     .map_err(|e| class_of(&e).to_string())
             }
+            // merging at the root has its own entry point (merge_root): use it for every other root merge
+            ("merge_at", _) if raw_ptr.is_empty() && val.as_object().map(|m| m.len() % 2 == 0).unwrap_or(false) =>
+                self.reg.merge_root(val.as_object().cloned().unwrap_or_default()).map(|_| Value::Null).map_err(|e| class_of(&e).to_string()),
             ("merge_at", _) => self.reg.merge_at(raw_ptr, val.as_object().cloned().unwrap_or_default()).map(|_| Value::Null).map_err(|e| class_of(&e).to_string()),
             ("read", "direct") => self.reg.dispatch(raw_ptr, None).map_err(|e| class_of(&e).to_string()),
             ("write", "direct") => self.reg.dispatch(raw_ptr, Some(val.clone())).map_err(|e| class_of(&e).to_string()),
@@ -501,7 +504,7 @@ pub fn hist(a: &Args) -> i32 {
                 94..=95 => "write_root",
                 _ => if rng.gen_bool(0.5) { "read" } else { "write" },
             };
-            let (name, toks) = if name == "write_root" { ("write", vec![]) } else if name == "set_root" { (name, vec![]) } else { (name, toks) };
+            let (name, toks) = if name == "write_root" { ("write", vec![]) } else if name == "set_root" { (name, vec![]) } else if name == "merge_at" && rng.gen_bool(0.25) { (name, vec![]) } else { (name, toks) };
             // "/" alone is the library's spelling of the root (as-built deviation from RFC 6901, where it is one empty
             // token); the single-empty-token pointer is therefore outside what is generated
             let toks = if toks.len() == 1 && toks[0].is_empty() { vec![] } else { toks };
